@@ -127,22 +127,37 @@ def pair_traces(label: str, cfg: Dict[str, Any], variants: List[str], steps: int
         return []
     if base["exc"]:
         notes["trajectories_cut_short_by_an_exception_in_step"] = notes.get("trajectories_cut_short_by_an_exception_in_step", 0) + 1
+    a = base["loose"] + base["agents"] + [rc._num(base["exc"])]
     out = []
-    for v in variants:
-        vcfg, text = rc.variant(cfg, v)
+
+    def one(v: str, keep: Tuple[str, ...]) -> bool:
+        vcfg, text = rc.variant(cfg, v, keep)
         other = rc.run_trajectory(vcfg, steps, seed)
-        a = base["loose"] + base["agents"] + [rc._num(base["exc"])]
         b = other["loose"] + other["agents"] + [rc._num(other["exc"])]
         if a == b and base["strict"] != other["strict"]:
             notes["insertion_order_only_differences"] = notes.get("insertion_order_only_differences", 0) + 1
-        out.append({"cfg": {"scenario": label, "host": v, "type": "", "scope": "pair"},
+        why: List[Any] = []
+        if a != b:
+            i = next((i for i, (x, y) in enumerate(zip(base["loose"], other["loose"])) if x != y), None)
+            if i is not None:
+                why = rc.explain(cfg, vcfg, steps, seed, i)
+        name = v if not keep else f"{v}/keeping_order_of:{','.join(keep)}"
+        out.append({"cfg": {"scenario": label, "host": name, "type": "", "scope": "pair"},
                     "ev": [_ev("Pair", a=a, b=b)],
-                    "meta": {"scenario": label, "variant": v, "steps": steps, "seed": seed,
+                    "meta": {"scenario": label, "variant": name, "steps": steps, "seed": seed,
                              "exc": [base["exc"], other["exc"]],
                              "first_difference": next((i for i, (x, y) in enumerate(zip(a, b)) if x != y), None),
+                             "first_state_differences": why,
                              "layout": {"sim_digests": len(base["loose"]), "agent_digests": len(base["agents"])}},
-                    "stimulus": {"scenario": label, "origin": origin, "variant": v, "steps": steps, "seed": seed,
+                    "stimulus": {"scenario": label, "origin": origin, "variant": name, "steps": steps, "seed": seed,
                                  "yaml_head": text[:400]}})
+        return a == b
+
+    for v in variants:
+        if not one(v, ()):
+            # so that ONE order-dependent mapping does not hide another: the same re-serialisation again with the
+            # mappings already seen to matter kept in their original key order
+            one(v, ("network_interfaces",))
     return out
 
 
@@ -203,10 +218,16 @@ def judge(chk: common.Check, traces: List[Dict[str, Any]], res: Dict[str, Any], 
                    "items": sorted({_shape(f) for f in facts})[:8]}
             if clause == "Loads":
                 sig["exception"] = event.get("exc")
+            if str(tr["cfg"].get("scenario", "")).startswith("probe/"):
+                sig["probe"] = tr["cfg"]["scenario"].split("/", 1)[1]
             if clause == "SameTrajectoryUnderReordering":
                 sig["variant"] = tr["cfg"].get("host")
                 sig["family"] = (tr.get("stimulus") or {}).get("origin")
                 sig["at"] = "build" if (tr["meta"].get("first_difference") == 0) else "step"
+                import re as _re
+                sig["what"] = sorted({_re.sub(r"d\[\d+\]\[1\]|\[\d+\]", "*", str(w[0])).split("/")[-1] + "@" +
+                                      "/".join(x for x in _re.sub(r"d\[\d+\]\[1\]|\[\d+\]", "*", str(w[0])).split("/")[1:4])
+                                      for w in (tr["meta"].get("first_state_differences") or [])})[:4]
             detail = {"trace_label": label, "meta": tr.get("meta"), "cfg": tr.get("cfg"), "failing_clauses": fail,
                       "divergent_expected_or_built_facts": facts, "stimulus": tr.get("stimulus")}
             if event.get("ev") == "Built":
@@ -604,6 +625,19 @@ def binding_selftest(accepted: List[Dict[str, Any]]) -> Dict[str, int]:
 # ---------------------------------------------------------------------------------------
 
 
+def _member_job(job) -> Tuple[List[Dict[str, Any]], Dict[str, int], Dict[str, int]]:
+    label, cfg, st, variants, steps, seed = job
+    notes: Dict[str, int] = {}
+    rc.ODDITIES.clear()
+    with contextlib.redirect_stdout(io.StringIO()):
+        trs, game = inventory_traces(label, cfg, "generated")
+        if game is not None:
+            trs = trs + pair_traces(label, cfg, variants, steps, seed, "generated", notes)
+    for t in trs:
+        t["stimulus"]["member"] = st
+    return trs, notes, dict(rc.ODDITIES)
+
+
 QUICK_PAIR = {"data_manipulation.yaml", "basic_lan_network_example.yaml", "client_server_p2p_network_example.yaml",
               "multi_lan_internet_network_example.yaml", "basic_firewall.yaml", "dmz_network.yaml", "basic_node_with_users.yaml",
               "nodes_with_initial_files.yaml", "wireless_wan_network_config.yaml", "software_fixing_duration.yaml",
@@ -687,18 +721,21 @@ def main(tier: str, seed: int) -> int:
     chk.cov["shipped_and_asset_scenarios_validated"] = n_scen
     chk.cov["assets_not_loading_skipped"] = skipped_assets
 
-    # 4. generated members and probes
+    # 4. generated members and probes (members in forked workers: they are independent of each other)
+    import multiprocessing as mp
+    import os
+
+    jobs = [(label, cfg, st, variants, steps, seed + 2) for label, cfg, st in members]
+    workers = max(1, min(8 if thorough else 4, (os.cpu_count() or 2) // 2))
+    with mp.get_context("fork").Pool(workers) as pool:
+        for trs, n_notes, odd in pool.imap(_member_job, jobs, chunksize=4):
+            traces += trs
+            for k, v in n_notes.items():
+                notes[k] = notes.get(k, 0) + v
+            for k, v in odd.items():
+                rc.ODDITIES[k] = rc.ODDITIES.get(k, 0) + v
     for label, cfg, st in members:
-        trs, game = inventory_traces(label, cfg, "generated")
-        for t in trs:
-            t["stimulus"]["member"] = st
-        traces += trs
         chk.add_case({"member": st})
-        if game is not None:
-            pt = pair_traces(label, cfg, variants, steps, seed + 2, "generated", notes)
-            for t in pt:
-                t["stimulus"]["member"] = st
-            traces += pt
     for label, cfg in probes():
         trs, game = inventory_traces(label, cfg, "probe")
         for t in trs:
